@@ -5,7 +5,7 @@ from . import _containers as K
 
 PROP_FILE = "Properties/C07.v"
 TRUSTED = ["segment-level models of .c2pa/PNG/JPEG/GIF/RIFF handlers (coq/Model/Cont*.v) incl. the vendored img-parts and riff "
-           "crate behaviour; byte-level decoders are tied by the correspondence run (dec(enc) proved for PNG only)",
+           "crate behaviour; dec(enc) proved for PNG and JPEG, the GIF and RIFF byte decoders are tied by the correspondence run only",
            "CRC-32 of the new PNG chunk is a parameter of the theorems (instantiated by a bitwise crc32 for evaluation)",
            "formats without a model (BMFF, TIFF, SVG, MP3, FLAC, JPEG XL) are covered by the oracle run on fixtures only: partial",
            "independent python counters of embedded manifests (vlib/props/_containers.py)"]
@@ -59,6 +59,8 @@ def gen_cases(ctx):
         cases.append({"fmt": fmt, "name": name, "asset": {"hex": a.hex()},
                       "ops": [{"op": "w", "s": {"gen": [n, 3]}}] + ([{"op": "w", "s": {"gen": [100, 1]}}, {"op": "rm"}] if n % 2 else []), "grp": "boundary"})
     for fam in FIVE:
+        if quick and fam not in ("png", "gif"):
+            continue
         for n in ([65535 + FIVE.index(fam) % 2] if quick else [65534, 65535, 65536, 65537, 65538, 200000]):
             fmt, name, a = tiny(fam, n)
             cases.append({"fmt": fmt, "name": name, "asset": {"hex": a.hex()}, "ops": [{"op": "w", "s": {"gen": [n, 2]}}], "grp": "boundary"})
@@ -213,7 +215,7 @@ def run(ctx):
                 "+ fixtures of every writable format; non-trivial = at least one operation; distinct by (format, asset, operations)",
         "distribution": stats,
         "model_compared": nmodel,
-        "level_by_format": {"c2pa": "full", "png": "full", "jpeg": "full (segment level; byte decoder by correspondence)",
+        "level_by_format": {"c2pa": "full", "png": "full", "jpeg": "full (bytes: parser inverts encoder on well-formed segment lists)",
                             "gif": "full (segment level; byte decoder by correspondence)",
                             "riff": "full for write/read/replace, remove refuted (F-RIFF-REMOVE)",
                             "bmff": "partial: oracle on fixtures only", "tiff": "partial: oracle on fixtures only",
